@@ -414,8 +414,11 @@ pub fn run(cfg: &Cfg, rep: &mut Report, mode: &Mode2) {
     let mut ctx = Ctx { rep, mode, reported: 0, per_key: Default::default() };
     let mut rng = cfg.rng(0x501);
     for i in 0..n {
-        if i % 8 == 0 && deadline.over() {
-            break;
+        if i % 8 == 0 {
+            if deadline.over() {
+                break;
+            }
+            cfg.checkpoint(ctx.rep);
         }
         let profile = &profiles[(i % profiles.len() as u64) as usize];
         let (body, shapes) = gen_program(cfg.seed ^ 0xC01, cfg.shard, i, profile);
